@@ -310,6 +310,75 @@ def fold_structure_call(repo: Repo) -> dict | None:
     return out
 
 
+def fold_meta_call(repo: Repo) -> dict | None:
+    """MetaType.__call__ (shared by every type, reached from the structure / union / enum call as well) over argument shapes: the call parses
+    exactly when it gets one positional argument that is a stream or a buffer (and not already an instance); a bytes object of exactly the
+    type's size given to a bytes type is adopted; every other call constructs the value from *all* its arguments."""
+    fi = repo.func("types/base.py", "MetaType.__call__")
+    out: dict = {"cases": 0, "bad": []}
+    stream = Sym("stream", {}, {"read": Host(lambda n=-1: b"")})
+    inst = Sym("instance", {"is_instance": True})
+    shapes = {
+        "no arguments": ((), {}), "an int": ((5,), {}), "two ints": ((5, 6), {}), "a stream": ((stream,), {}), "4 bytes": ((b"abcd",), {}), "6 bytes": ((b"abcdef",), {}),
+        "a bytearray": ((bytearray(b"abcd"),), {}), "a memoryview": ((memoryview(b"abcd"),), {}), "an instance of the type": ((inst,), {}),
+        "bytes and an int": ((b"ab", 7), {}), "a stream and an int": ((stream, 7), {}), "keywords only": ((), {"a": 1}), "bytes and a keyword": ((b"abcd",), {"b": 2}),
+        "a str": (("abcd",), {}),
+    }
+    try:
+        for is_bytes_type in (False, True):
+            for name, (args, kwargs) in shapes.items():
+                trace: list = []
+
+                def type_call(c, *a, trace=trace, **kw):
+                    trace.append(("init", a, kw))
+                    return Sym("obj")
+
+                def isinst(o, k, is_bytes_type=is_bytes_type):
+                    if isinstance(k, Sym) and k.label == "T":
+                        return o is inst
+                    ks = k if isinstance(k, tuple) else (k,)
+                    if all(x in (bytes, bytearray, memoryview, int, str) for x in ks):
+                        return isinstance(o, ks)
+                    raise Refused("isinstance against a non-builtin")
+
+                def issub(t, k, is_bytes_type=is_bytes_type):
+                    if k is bytes:
+                        return is_bytes_type
+                    raise Refused("issubclass against a non-builtin")
+
+                cls = Sym("T", {"size": 4}, {"_read": Host(lambda st, *a, trace=trace, **k: (trace.append(("parse-stream",)), Sym("parsed"))[1]),
+                                              "reads": Host(lambda b, trace=trace: (trace.append(("parse-bytes", bytes(b))), Sym("parsed"))[1]),
+                                              "read": Host(lambda b, trace=trace: (trace.append(("parse-any",)), Sym("parsed"))[1])})
+                env = {"type": Sym("type", {}, {"__call__": Host(type_call)}), "isinstance": Host(isinst), "issubclass": Host(issub), "bytearray": bytearray,
+                       "memoryview": memoryview, "bytes": bytes, "hasattr": Host(lambda o, n: isinstance(o, Sym) and n in o.methods),
+                       **{q: UserFunc(f.node) for q, f in repo.module("types/base.py").functions.items() if "." not in q},
+                       "super": Host(lambda: Sym("super", {}, {"__call__": Host(type_call)}))}
+                Evaluator(env, steps=4000).call_user(UserFunc(fi.node), [cls, *args], dict(kwargs))
+                kinds = [t[0] for t in trace]
+                one = len(args) == 1 and args[0] is not inst
+                if one and args[0] is stream:
+                    want = ["parse-stream"]
+                elif one and is_bytes_type and isinstance(args[0], bytes) and len(args[0]) == 4:
+                    want = ["init"]
+                elif one and isinstance(args[0], (bytes, bytearray, memoryview)):
+                    want = ["parse-bytes"]
+                else:
+                    want = ["init"]
+                out["cases"] += 1
+                got = ["parse-bytes" if k_ == "parse-any" and not (args and args[0] is stream) else ("parse-stream" if k_ == "parse-any" else k_) for k_ in kinds]
+                if got != want:
+                    out["bad"].append((("bytes type, " if is_bytes_type else "") + name, got, want))
+                elif want == ["init"]:
+                    a_, kw_ = trace[0][1], trace[0][2]
+                    if tuple(a_) != tuple(args) or dict(kw_) != dict(kwargs):
+                        out["bad"].append((name, f"constructed from {a_} {kw_}", f"all the arguments {args} {kwargs}"))
+    except Refused:
+        return None
+    except (TypeError, KeyError, IndexError, ValueError, AttributeError):
+        return None
+    return out
+
+
 def fold_mark_unary_minus(repo: Repo, max_len: int = 5) -> dict | None:
     """Expression._mark_unary_minus over *every* token list up to ``max_len`` over a 7-token alphabet (bounded-exhaustive): a '-' is unary exactly
     when it starts the list or follows '(' or an operator - where a '-' that was itself just marked unary counts as an operator."""
@@ -366,6 +435,7 @@ def _layout_kinds() -> dict[str, dict]:
         "u32:12": {"size": 4, "align": 4, "bits": 12}, "e16:4": {"size": 2, "align": 2, "bits": 4, "enum_of": "u16"}, "u16:12": {"size": 2, "align": 2, "bits": 12},
         "u32@8": {"size": 4, "align": 4, "offset": 8}, "u8@1": {"size": 1, "align": 1, "offset": 1},
         "i24:4": {"size": 3, "align": 4, "bits": 4}, "i24:20": {"size": 3, "align": 4, "bits": 20},  # a unit whose size is not a multiple of its alignment
+        "i16:4": {"size": 2, "align": 2, "bits": 4, "storage": "i16"},  # another storage type of the same size as u16: a new unit all the same
         "u16:0": {"size": 2, "align": 2, "bits": 0},  # a zero-width member: every walker treats it as a plain field (truthiness of field.bits)
     }
 
